@@ -50,6 +50,12 @@ def check_trimmed(ctx: Ctx, dtype):
     m = rng.randint(2 * b + 1, 2 * b + 6)
     n = rng.choice([1, 2, 3, 5])
     H = honest_cluster(rng, m, n, spread=rng.choice([0, 2, 30]))
+    frac = rng.random() < 0.5
+    if frac:
+        # non-integer honest values (rounded to the dtype, so still exact rationals): sums are no longer exact in floating
+        # point, which separates "mean of the kept entries" from "sum of everything minus the extremes"
+        H = [[Fr(torch.tensor(float(v) + rng.uniform(-0.5, 0.5), dtype=dtype).item()) for v in r] for r in H]
+    ctx.count("trimmed_noninteger", frac)
     k = rng.randint(0, b)
     J, bad = corrupt(rng, H, k, dtype)
     Jt = to_tensor(J, dtype)
@@ -64,12 +70,14 @@ def check_trimmed(ctx: Ctx, dtype):
         return
     xs = tensor_to_fr(x)
     mod = fr_list(ask_agg(ctx.driver, "trimmed", J, b=b)[1])
-    tol = Fr(8 * ulp(dtype)) * max(maxabs(mod), Fr(1)) * m
+    good = [i for i in range(m) if i not in bad]
+    # every kept entry lies between the extremes of the untouched rows (k <= b): rounding is relative to THEIR magnitude,
+    # not to the magnitude of the corrupted rows
+    tol = Fr(8 * ulp(dtype)) * max(maxabs([v for i in good for v in J[i]]), Fr(1)) * m
     if maxdiff(xs, mod) > tol:
         ctx.violation(f"TrimmedMean({b}) = {[float(v) for v in xs]} differs from the mean of the entries left after "
                       f"removing the {b} largest and {b} smallest per column = {[float(v) for v in mod]}", rp)
         return
-    good = [i for i in range(m) if i not in bad]
     for c in range(n):
         lo, hi = min(J[i][c] for i in good), max(J[i][c] for i in good)
         if not (lo - tol <= xs[c] <= hi + tol):
